@@ -6,6 +6,7 @@ import PV.Proofs.Window
 import PV.Proofs.C02aLemmas
 import PV.Proofs.C02bLemmas
 import PV.Proofs.C02cLemmas
+import PV.Proofs.C02dLemmas
 
 namespace PV
 open Scalar
@@ -429,5 +430,17 @@ example : ChainOK { name := "A|r1", idl := .list [1, 3, 5, 9], deltas := [1, -1,
   rcases hc with rfl | rfl | rfl | rfl <;> decide
 
 end assembled
+
+/-- **C02 (the window bound counts the positions of the expanded chain).**  `r_length`, from which
+    `w_max = max(r_length) // 2` is taken, is the length of the array `_expand_deltas` builds for that replica on the
+    ensemble's spacing - for ranges of any stride and for lists alike (a range of stride k·gap used to be counted as
+    `len·k`, k - 1 positions that do not exist; repaired in /repo 98abf56, and the model has the one formula). -/
+theorem c02_window_bound_counts_expanded_chain (d : List α) (idx : Idl) (gap : Int) (hg : 0 < gap)
+    (hlen : d.length = idx.len) (hne : 0 < idx.len) (hle : idx.first ≤ idx.last) :
+    ((expandDeltas d idx gap).length : Int) = rLength idx gap :=
+  C02d.rLength_eq_expanded_length d idx gap hg hlen hne hle
+
+/-- the witness of the repaired defect: `range(1, 41, 4)` next to a replica of stride 2 occupies 19 positions, not 20 -/
+example : rLength (.range 1 10 4) 2 = 19 ∧ (Idl.range 1 10 4).first ≤ (Idl.range 1 10 4).last := by decide
 
 end PV
